@@ -57,6 +57,46 @@ func (vd *Validator) validOnes(s M, cs []any, max int) []any {
 	return out
 }
 
+// pick limits the candidates tried in a nested position to max, half of them valid and half
+// invalid for the member schema where both kinds exist (in order of appearance): a value that is
+// wrong only deep inside must still be among them.
+func (vd *Validator) pick(s M, cs []any, max int) []any {
+	if len(cs) <= max {
+		return cs
+	}
+	var good, bad []any
+	for _, c := range cs {
+		ok, amb := vd.Valid(s, c)
+		switch {
+		case amb:
+		case ok:
+			good = append(good, c)
+		default:
+			bad = append(bad, c)
+		}
+	}
+	ng, nb := max-max/2, max/2
+	if len(bad) < nb {
+		ng = max - len(bad)
+	}
+	if len(good) < ng {
+		nb = max - len(good)
+	}
+	// spread over the list: candidates come grouped by what they vary (wrong type first, then each
+	// keyword's boundaries), and a nested position should see every group
+	spread := func(l []any, n int) []any {
+		if len(l) <= n {
+			return l
+		}
+		out := make([]any, 0, n)
+		for i := 0; i < n; i++ {
+			out = append(out, l[i*len(l)/n])
+		}
+		return out
+	}
+	return append(spread(good, ng), spread(bad, nb)...)
+}
+
 func (vd *Validator) cands(s M, depth int) []any {
 	if depth < 0 || s == nil {
 		return []any{nil, json.Number("0")}
@@ -64,7 +104,12 @@ func (vd *Validator) cands(s M, depth int) []any {
 	if ref, ok := s["$ref"].(string); ok {
 		name := ref[strings.LastIndex(ref, "/")+1:]
 		if t, ok := vd.Components[name].(M); ok {
-			return vd.cands(t, depth-1)
+			if _, again := t["$ref"]; again {
+				depth-- // a chain of references must end
+			}
+			// following a reference costs no depth: a cycle through two or three components is
+			// entered once more below the root
+			return vd.cands(t, depth)
 		}
 		return nil
 	}
@@ -169,10 +214,7 @@ func (vd *Validator) cands(s M, depth int) []any {
 		ic := vd.cands(items, depth-1)
 		valid := vd.validOnes(items, ic, 6)
 		out = append(out, []any{})
-		for i, c := range ic {
-			if i >= 14 {
-				break
-			}
+		for _, c := range vd.pick(items, ic, 14) {
 			out = append(out, []any{c})
 		}
 		lens := map[int]bool{1: true, 2: true, 3: true}
@@ -248,10 +290,8 @@ func (vd *Validator) cands(s M, depth int) []any {
 				only[n] = v
 				out = append(out, only)
 			}
-			for i, c := range pc[n] {
-				if i >= 10 {
-					break
-				}
+			ps, _ := props[n].(M)
+			for _, c := range vd.pick(ps, pc[n], 10) {
 				out = append(out, clone(n, c))
 			}
 		}
@@ -261,11 +301,31 @@ func (vd *Validator) cands(s M, depth int) []any {
 		} else {
 			apc = []any{json.Number("1"), "x", true, nil}
 		}
+		if ap, ok := s["additionalProperties"].(M); ok {
+			apc = vd.pick(ap, apc, 8)
+		}
 		for i, c := range apc {
 			if i >= 8 {
 				break
 			}
 			out = append(out, clone("zz", c))
+		}
+		// members matched by a pattern property (patterns of the form ^literal)
+		if pp, ok := s["patternProperties"].(M); ok {
+			var pats []string
+			for pat := range pp {
+				pats = append(pats, pat)
+			}
+			sort.Strings(pats)
+			for _, pat := range pats {
+				sub, _ := pp[pat].(M)
+				if !strings.HasPrefix(pat, "^") || strings.ContainsAny(pat[1:], `\.[]()*+?|{}$^`) {
+					continue
+				}
+				for _, c := range vd.pick(sub, vd.cands(sub, depth-1), 6) {
+					out = append(out, clone(pat[1:]+"1", c), clone(pat[1:]+"1", c, pat[1:]+"2", c))
+				}
+			}
 		}
 		// member counts around minProperties / maxProperties
 		fill := apc
